@@ -12,6 +12,7 @@ import (
 	"verif/harness/internal/core"
 	"verif/harness/internal/dump"
 	"verif/harness/internal/kmodel"
+	"verif/harness/internal/ql"
 	"verif/harness/internal/schema"
 )
 
@@ -225,6 +226,55 @@ func init() {
 							if err != nil || !sameList(got, qq.exp) {
 								c.Violationf("C15 query through store: "+qq.store+" "+qq.what, map[string]any{"cfg": cfg.String(), "tx": res.Ops},
 									"%s on %s returned %q err=%v, model expects %q", qq.what, qq.store, got, err, qq.exp)
+							}
+						}
+						// lookups by id through each store: visible exactly when the store's population holds the id
+						inList := func(l []string, id string) bool {
+							for _, x := range l {
+								if x == id {
+									return true
+								}
+							}
+							return false
+						}
+						for _, id := range append(append([]string{}, all...), "no-such-id") {
+							for _, sp := range []struct {
+								store string
+								pop   []string
+							}{{kmodel.Emps, all}, {kmodel.Mgrs, mgrs}, {kmodel.Ctrs, all}} {
+								var exp []string
+								if inList(sp.pop, id) {
+									exp = []string{id}
+								}
+								for _, text := range []string{"id = " + ql.Lit(id), "id in [" + ql.Lit(id) + "]", "id = " + ql.Lit(id) + " sort by title", "id = " + ql.Lit(id) + " and true"} {
+									got, n, err := e.Sc.St(sp.store).Store.QueryIds(tx, text)
+									c.Eval()
+									if err != nil || !sameList(got, exp) || int(n) != len(exp) {
+										c.Violationf("C15 query through store: "+sp.store+" lookup by id ("+strings.SplitN(text, " ", 3)[1]+")", map[string]any{"cfg": cfg.String(), "tx": res.Ops, "query": text},
+											"%q on %s returned %q count %d err=%v, model expects %q", text, sp.store, got, n, err, exp)
+									}
+								}
+							}
+						}
+						// a page in the middle, with a constant filter, through each store
+						for _, sp := range []struct {
+							store string
+							pop   []string
+						}{{kmodel.Emps, all}, {kmodel.Mgrs, mgrs}, {kmodel.Ctrs, all}} {
+							for _, text := range []string{"true skip 1 limit 2", "skip 1 limit 2", "false skip 1"} {
+								var exp []string
+								total := len(sp.pop)
+								if text[0] == 'f' {
+									total = 0
+								} else if len(sp.pop) > 1 {
+									exp = sp.pop[1:min(3, len(sp.pop))]
+								}
+								got, n, err := e.Sc.St(sp.store).Store.QueryIds(tx, text)
+								c.Eval()
+								if err != nil || !sameList(got, exp) || int(n) != total {
+									c.Violationf("C15 query through store: "+sp.store+" page with a constant filter", map[string]any{"cfg": cfg.String(), "tx": res.Ops, "query": text},
+										"%q on %s returned %q count %d err=%v, model expects %q count %d", text, sp.store, got, n, err, exp, total)
+								}
 							}
 						}
 						return nil
